@@ -426,6 +426,15 @@ def _run(chk, args) -> int:
     if have_std():
         step = max(1, len(sents) // (6000 if thorough else 500))
         sample = [j for _, j in sents[::step]]
+        # one sentence per operator / quantifier / kind of parameter over the same operands: two items of a table that
+        # share a spelling collide here (injectivity inside every notation x format x dialect)
+        A_, B_ = ['A', 0, 0], ['A', 1, 0]
+        Fx_ = ['P', [0, 0, 1], [['v', 0, 0]]]
+        ops = tb.get('operators') or {}
+        sample = sample + [['U', o, A_] for o, ar in ops.items() if ar == 1] + [['B', o, A_, B_] for o, ar in ops.items() if ar == 2] \
+            + [['Q', q, [0, 0], Fx_] for q in (tb.get('quantifiers') or [])] \
+            + [['P', [k_, 0, 1], [['c', 0, 0]]] for k_ in range(4)] + [['P', [0, 0, 1], [['c', k_, 0]]] for k_ in range(4)] \
+            + [['A', k_, 0] for k_ in range(5)] + [['A', 0, k_] for k_ in range(1, 4)]
         all_tables_cases(chk, tb, sample)
         writer_option_cases(chk)
         lang = [j for _, j in sents if in_lang.get(json.dumps(j))]
